@@ -228,6 +228,12 @@ def _limits():
     os.setsid()
 
 
+def _limits_big():
+    # counterexample extraction (rare): the driver builds traces and needs more memory than a plain check
+    resource.setrlimit(resource.RLIMIT_AS, (28 << 30, 28 << 30))
+    os.setsid()
+
+
 def run_cmd(cmd, cap, out=None):
     t0 = time.time()
     with (open(out, 'w') if out else open(os.devnull, 'w')) as fo:
@@ -388,7 +394,7 @@ def _take_slot():
 PB_BLOCK = re.compile(r'Concrete playback unit test for `([^`]+)`:\n```\n(.*?)\n```', re.S)
 
 
-def kani_driver_run(h, cap, prop=''):
+def kani_driver_run(h, cap, prop='', mem_gb=None):
     """Run the real `cargo kani` on one harness with concrete playback printing."""
     g = GROUPS[h['group']]
     # kani-driver reads the crate's metadata after compiling, so two drivers must not share a
@@ -401,7 +407,7 @@ def kani_driver_run(h, cap, prop=''):
         t0 = time.time()
         try:
             p = subprocess.run(cmd, cwd=os.path.join(REPO, g['crate']), env=ENV, stdout=subprocess.PIPE,
-                               stderr=subprocess.STDOUT, text=True, timeout=cap, preexec_fn=_limits)
+                               stderr=subprocess.STDOUT, text=True, timeout=cap, preexec_fn=(_limits_big if mem_gb else _limits))
             outp = p.stdout
         except subprocess.TimeoutExpired as e:
             return dict(verdict='timeout', tests=[], wall_s=time.time() - t0, raw='')
@@ -557,10 +563,21 @@ def run_property(prop, tier, seed, only=None, list_only=False, jobs=10, write_ev
     def _cex(r):
         h = hmap[r['name']]
         log('[%s] %s failed %d check(s); asking kani for the concrete counterexample ...' % (prop, r['name'], len(r['failed'])))
-        return r, (drv.get(r['name']) or kani_driver_run(h, max(4 * h['cap'], 600), prop))
+        d0 = drv.get(r['name'])
+        if d0 and d0['verdict'] == 'fail' and d0['tests']:
+            return r, d0
+        return r, kani_driver_run(h, max(4 * h['cap'], 900), prop, mem_gb=28)
 
+    # counterexample extraction re-runs the real kani driver, which is slow: replay the (up to) four
+    # cheapest failing harnesses plus every known-finding twin; one confirmed violation decides the check
+    failing.sort(key=lambda r: (0 if r['known'] else 1, r.get('wall_s', 0)))
+    n_known = sum(1 for r in failing if r['known'])
+    to_replay = failing[:n_known + 4]
+    for r in failing[n_known + 4:]:
+        r['status'] = 'fail-unreplayed'
+        r['detail'] = 'failed checks; not replayed because other failing harnesses of this property were'
     with cf.ThreadPoolExecutor(max_workers=max(1, min(jobs, 6))) as ex:
-        cex = list(ex.map(_cex, failing))
+        cex = list(ex.map(_cex, to_replay))
     for r, d in cex:
         h = hmap[r['name']]
         r['driver_verdict'] = d['verdict']
@@ -598,6 +615,8 @@ def run_property(prop, tier, seed, only=None, list_only=False, jobs=10, write_ev
                 violations.append(r)
     for r in results:
         if r['status'] in ('pass', 'fail'):
+            continue
+        if r['status'] == 'fail-unreplayed' and violations:
             continue
         problems.append('%s: %s %s' % (r['name'], r['status'], r['detail'][:200]))
     # a "known" harness that passes: the finding no longer reproduces - fine, say so
